@@ -7,6 +7,7 @@ package graph
 
 import (
 	"fmt"
+	"reflect"
 	"sort"
 
 	apiv1 "k8s.io/api/core/v1"
@@ -52,12 +53,45 @@ func (v VerifC06Resolver) RefAllowedFrom(from VerifC06From, to VerifC06To) bool 
 	return v.r.refAllowedFrom(from.real())(to.real())
 }
 
-// Keys renders the key set of the `allowed` map, sorted.
+// Keys renders the key set of the `allowed` map, sorted. It reads the resolver by reflection so that the harness
+// still builds when the internal representation changes (then the keys come out as "<other representation: …>"
+// and the resolver correspondence reports the difference, while every other stream keeps running).
 func (v VerifC06Resolver) Keys() []string {
-	out := make([]string, 0, len(v.r.allowed))
-	for k := range v.r.allowed {
-		out = append(out, fmt.Sprintf("%s|%s|%s|%s<-%s|%s|%s",
-			k.to.group, k.to.kind, k.to.name, k.to.namespace, k.from.group, k.from.kind, k.from.namespace))
+	out := []string{}
+	rv := reflect.ValueOf(v.r).Elem().FieldByName("allowed")
+	if !rv.IsValid() || rv.Kind() != reflect.Map {
+		return []string{"<no map field `allowed`>"}
+	}
+	str := func(x reflect.Value, path ...string) (string, bool) {
+		for _, f := range path {
+			if x.Kind() != reflect.Struct {
+				return "", false
+			}
+			x = x.FieldByName(f)
+			if !x.IsValid() {
+				return "", false
+			}
+		}
+		if x.Kind() != reflect.String {
+			return "", false
+		}
+		return x.String(), true
+	}
+	paths := [][]string{{"to", "group"}, {"to", "kind"}, {"to", "name"}, {"to", "namespace"},
+		{"from", "group"}, {"from", "kind"}, {"from", "namespace"}}
+	for _, k := range rv.MapKeys() {
+		var parts []string
+		ok := true
+		for _, pth := range paths {
+			x, found := str(k, pth...)
+			ok = ok && found
+			parts = append(parts, x)
+		}
+		if !ok {
+			out = append(out, fmt.Sprintf("<other representation: %v -> %v>", k, rv.MapIndex(k)))
+			continue
+		}
+		out = append(out, fmt.Sprintf("%s|%s|%s|%s<-%s|%s|%s", parts[0], parts[1], parts[2], parts[3], parts[4], parts[5], parts[6]))
 	}
 	sort.Strings(out)
 	return out
